@@ -1,5 +1,6 @@
 //! zv — bounded exhaustive checks of the 20 properties of KillingSpark/zstd-rs (see /verif/DESIGN.md).
 mod c01;
+mod c02;
 mod c03;
 mod c04;
 mod c05;
@@ -11,6 +12,8 @@ mod c10;
 mod c12;
 mod c13;
 mod c14;
+mod c15;
+mod cmp;
 mod ev;
 mod fe;
 mod gen;
@@ -85,6 +88,7 @@ fn main() {
     }
     let code = match id.as_str() {
         "C01" => c01::main(tier, replay),
+        "C02" => c02::main(tier, replay),
         "C03" => c03::main(tier, replay, wa),
         "C04" => c04::main(tier, replay),
         "C05" => c05::main(tier, replay, wa),
@@ -96,8 +100,10 @@ fn main() {
         "C12" => c12::main(tier, replay),
         "C13" => c13::main(tier, replay),
         "C14" => c14::main(tier, replay),
+        "C15" => c15::main(tier, replay),
         "SELFTEST" => selftest::main(),
         "DBGLATTICE" => { selftest::dbg_lattice(); 0 }
+        "DBGHUFF" => { selftest::dbg_huff(); 0 }
         _ => {
             eprintln!("no check for {id}");
             2
